@@ -21,7 +21,7 @@ COMPONENTS = {"real": ["yowsup.axolotl.store.sqlite.liteidentitykeystore", "yows
               "stub": ["server double (key directory replaced on reinstall)", "scheduler", "application double", "pin reference model"]}
 ASSUMPTIONS = ["six 1.17 shim", "actor assumption", "operations are issued at quiescent points (the property is about histories, not "
                "about races between a reinstall and messages in flight)"]
-BUDGET = {"quick": (600, 150), "thorough": (20000, 2400)}
+BUDGET = {"quick": (600, 150), "thorough": (80000, 2700)}
 FAULTS = ["reinstall", "clean_restart"]
 PROBES = ["identity_change_notification_after_reinstall", "pin_kept_after_reinstall", "untrusted_first_message_refused", "untrusted_bundle_refused", "autotrust_replaced_pin",
           "pin_enforced_after_restart", "messaging_resumed_with_autotrust", "first_contact_by_incoming_message", "autotrust_toggled_while_connected"]
